@@ -48,6 +48,7 @@ TZS = ['UTC', 'XXX-8', 'XXX8', 'XXX-5:30', 'XXX12',
 N = {'quick': 600, 'thorough': 20000}
 PER_UNIT = 6
 
+_counts = {}
 _scan = {'first': None, 'hook': None, 'n': 0, 'hash_hook': None, 'hn': 0}
 
 
@@ -279,6 +280,37 @@ def _apply_ops(rootA, rootB, ops, tprev):
                 utime(os.path.join(r, mrel), mt)
             modified = True
             continue
+        if k == 'add-subtree' and (op['pick'] // 6) % 3 == 1:
+            # a Manifest dropped into a directory BETWEEN the top and a registered
+            # sub-Manifest, listing (with the right size but wrong checksums) a file
+            # that the deeper Manifest already lists: a file addition like any other
+            cands = []
+            for dp, dn, fn in sorted(os.walk(rootA)):
+                rel = os.path.relpath(dp, rootA)
+                if 'Manifest' in fn and rel.count('/') >= 1 and not os.path.exists(
+                        os.path.join(rootA, os.path.dirname(rel), 'Manifest')):
+                    try:
+                        ents = mtext.parse_file(os.path.join(dp, 'Manifest'))
+                    except Exception:
+                        continue
+                    for e in ents:
+                        if e['tag'] == 'DATA' and e['sums'] and '/' not in e['path'] \
+                                and os.path.isfile(os.path.join(dp, e['path'])):
+                            cands.append((os.path.dirname(rel), os.path.basename(rel), e))
+            if not cands:
+                continue
+            parent, sub, e = cands[op['pick'] % len(cands)]
+            bogus = dict(e, path=sub + '/' + e['path'],
+                         sums={h: ('0' * len(v)) for h, v in e['sums'].items()})
+            text = mtext.render([bogus]).encode()
+            for r in (rootA, rootB):
+                with open(os.path.join(r, parent, 'Manifest'), 'wb') as f:
+                    f.write(text)
+                if mt is not None:
+                    utime(os.path.join(r, parent, 'Manifest'), mt)
+            _counts['mid_manifests_dropped'] = _counts.get('mid_manifests_dropped', 0) + 1
+            modified = True
+            continue
         if k == 'add-subtree':
             # a directory that arrives with its own, so far unreferenced Manifest
             # (unpacked tarball, `cp -a`): file additions only, with any mtimes; the
@@ -354,6 +386,15 @@ def _apply_ops(rootA, rootB, ops, tprev):
 
 
 def run_history(ctx, d, case):
+    try:
+        return _run_history(ctx, d, case)
+    finally:
+        n = _counts.pop('mid_manifests_dropped', 0)
+        if n:
+            ctx.count('mid_manifests_dropped', n)
+
+
+def _run_history(ctx, d, case):
     tz = case['tz']
     rootA, rootB = os.path.join(d, 'A'), os.path.join(d, 'B')
     gtree.materialize(case['tree'], rootA)
@@ -368,7 +409,10 @@ def run_history(ctx, d, case):
             # a DIST line when the tree is first created: sub-Manifests from the start
             for r in (rootA, rootB):
                 n = 0
-                for dp, dn, fn in sorted(os.walk(r)):
+                # (deepest directories first, so that a directory without a Manifest
+                # may lie between the top and a sub-Manifest)
+                for dp, dn, fn in sorted(os.walk(r), key=lambda t: (-t[0].count('/'),
+                                                                     t[0])):
                     if dp != r and n < 2:
                         with open(os.path.join(dp, 'Manifest'), 'w') as f:
                             f.write('DIST pre-%d.tar 1 MD5 %s\n' % (n, 'ab' * 16))
